@@ -31,6 +31,8 @@ fn main() {
         Some("replay") => cmd_replay(&args[2..]),
         Some("hashes") => cmd_hashes(&args[2..]),
         Some("selfreplay") => cmd_selfreplay(&args[2..]),
+        Some("tally") => cmd_tally(&args[2..]),
+        Some("trace") => cmd_trace(&args[2..]),
         Some("list") => {
             for p in props::all() {
                 println!("{} {} {}", p.id, p.engine, p.level);
@@ -495,6 +497,96 @@ pub fn cmd_selfreplay(args: &[String]) -> i32 {
             for j in i.saturating_sub(5)..i { println!("  ctx: {}", a[j]); }
             break;
         }
+    }
+    0
+}
+
+/// HELPER (not part of the registered checks): runs `n` seeds of a property
+/// without stopping at the first violation and prints how often each
+/// violation class / foreign abort occurs, with one example run index each.
+///   verifsim tally <prop> <tier> <n> <workers> [first_index]
+pub fn cmd_tally(args: &[String]) -> i32 {
+    let Some(spec) = args.first().and_then(|p| props::find(p)) else { return 2 };
+    let Some(tier) = parse_tier(args.get(1)) else { return 2 };
+    let n: u64 = args.get(2).and_then(|s| s.parse().ok()).unwrap_or(1000);
+    let workers: usize = args.get(3).and_then(|s| s.parse().ok()).unwrap_or(16);
+    let first: u64 = args.get(4).and_then(|s| s.parse().ok()).unwrap_or(0);
+    let seed = env_u64("VERIF_SEED", 1);
+    let f = props::runner(spec.id, tier);
+    let next = std::sync::atomic::AtomicU64::new(first);
+    let tally: std::sync::Mutex<std::collections::BTreeMap<String, (u64, u64, String)>> = Default::default();
+    let totals = std::sync::Mutex::new((0u64, 0u64, 0u64, 0u64));
+    let slowest = std::sync::Mutex::new((0u64, 0u64));
+    let start = std::time::Instant::now();
+    std::thread::scope(|s| {
+        for _ in 0..workers {
+            s.spawn(|| loop {
+                let i = next.fetch_add(1, std::sync::atomic::Ordering::SeqCst);
+                if i >= first + n { break; }
+                let mut ch = Choices::generate(choices::mix(seed, i));
+                let mut rep = RunReport::new(false);
+                let t_run = std::time::Instant::now();
+                let key = match run_one(&*f, &mut ch, &mut rep) {
+                    Ok(Outcome::Ok) => None,
+                    Ok(Outcome::Violation(v)) => Some((v.class, v.message)),
+                    Ok(Outcome::Foreign(w)) => Some((format!("FOREIGN {w}"), String::new())),
+                    Err(e) => Some((format!("HARNESS {e}"), String::new())),
+                };
+                {
+                    let mut t = totals.lock().unwrap();
+                    t.0 += 1; t.1 += rep.sim_time_ms; t.2 += rep.crash_points; t.3 += rep.nontrivial as u64;
+                }
+                {
+                    let el = t_run.elapsed().as_micros() as u64;
+                    let mut sl = slowest.lock().unwrap();
+                    if el > sl.0 { *sl = (el, i); }
+                }
+                if let Some((k, m)) = key {
+                    let mut t = tally.lock().unwrap();
+                    let e = t.entry(k).or_insert((0, i, m));
+                    e.0 += 1;
+                    if i < e.1 { e.1 = i; }
+                }
+            });
+        }
+    });
+    let t = totals.lock().unwrap();
+    let wall = start.elapsed().as_secs_f64();
+    println!("tally {} runs={} wall={:.1}s runs/s={:.0} sim_s/run={:.2} crash_points={} nontrivial={}", spec.id, t.0, wall, t.0 as f64 / wall, t.1 as f64 / 1000.0 / t.0.max(1) as f64, t.2, t.3);
+    { let sl = slowest.lock().unwrap(); println!("slowest run: index {} took {} us", sl.1, sl.0); }
+    for (k, (c, i, m)) in tally.lock().unwrap().iter() {
+        println!("{c:8} first_run={i:<6} {k}\n         {m}");
+    }
+    0
+}
+
+/// HELPER: prints the full trace of run `index` of a property (base seed VERIF_SEED).
+///   verifsim trace <prop> <tier> <index>
+pub fn cmd_trace(args: &[String]) -> i32 {
+    let Some(spec) = args.first().and_then(|p| props::find(p)) else { return 2 };
+    let Some(tier) = parse_tier(args.get(1)) else { return 2 };
+    let i: u64 = args.get(2).and_then(|s| s.parse().ok()).unwrap_or(0);
+    let seed = env_u64("VERIF_SEED", 1);
+    let f = props::runner(spec.id, tier);
+    let mut ch = Choices::generate(choices::mix(seed, i));
+    let mut rep = RunReport::new(true);
+    let mut out = run_one(&*f, &mut ch, &mut rep);
+    if spec.level == "fault_enumeration" {
+        if let Ok(Outcome::Violation(_)) | Ok(Outcome::Foreign(_)) = &out {
+            // replay the single crash point that failed
+            let log = ch.log.clone();
+            println!("-- single crash point: choices start {:?}", &log[..log.len().min(3)]);
+            let mut ch2 = Choices::replay(choices::mix(seed, i), log);
+            rep = RunReport::new(true);
+            out = run_one(&*f, &mut ch2, &mut rep);
+        }
+    }
+    for l in rep.lines.unwrap_or_default() { println!("{l}"); }
+    match out {
+        Ok(Outcome::Ok) => println!("=> ok"),
+        Ok(Outcome::Violation(v)) => println!("=> VIOLATION [{}] {}", v.class, v.message),
+        Ok(Outcome::Foreign(w)) => println!("=> foreign {w}"),
+        Err(e) => println!("=> harness error {e}"),
     }
     0
 }
